@@ -1,6 +1,6 @@
 //! C14 — checkpoint and restore reproduce the checkpointed state.
 //!
-//! pre-history (3 canonical shapes) → checkpoint → every mid-history of ≤ m operations from
+//! pre-history (5 canonical shapes) → checkpoint → every mid-history of ≤ m operations from
 //! {commit, flush, compaction} → restore → every post-history of ≤ p operations from
 //! {commit, flush, compaction, reopen}; per option set. After the restore and after every later
 //! step the store must equal the KvModel at the checkpoint plus the post-restore commits; the
@@ -181,7 +181,15 @@ fn run_case_inner(opt: &OptSet, case: &Case, drain_before_restore: bool) -> Resu
 	let pre: Vec<Cop> = match case.pre {
 		0 => vec![Cop::W(Kind::Set, b"a"), Cop::W(Kind::Set, b"b")],
 		1 => vec![Cop::W(Kind::Set, b"a"), Cop::W(Kind::Set, b"b"), Cop::F],
-		_ => vec![Cop::W(Kind::Set, b"a"), Cop::F, Cop::C, Cop::W(Kind::Set, b"b"), Cop::F, Cop::W(Kind::Set, b"a")],
+		2 => vec![Cop::W(Kind::Set, b"a"), Cop::F, Cop::C, Cop::W(Kind::Set, b"b"), Cop::F, Cop::W(Kind::Set, b"a")],
+		// 3 = empty store, 4 = one table holding only a short value: with a value log the
+		// checkpoint then contains no value-log file at all (the first token is the long one, so
+		// the counter starts one further for 4)
+		3 => vec![],
+		_ => {
+			n = 1;
+			vec![Cop::W(Kind::Set, b"b"), Cop::F]
+		}
 	};
 	for c in &pre {
 		if let Some((cl, t)) = apply(&mut w, c, &mut n)? {
@@ -410,12 +418,12 @@ pub fn check(tier: Tier) -> i32 {
 	// moved past the checkpoint's sequence number by the time of the restore
 	surrealkv::verif::set_gc_interval(2);
 	let mut report = Report::new("C14", tier, "model_checking");
-	let budget = Budget::new(if tier == Tier::Quick { 38.0 } else { 600.0 });
+	let budget = Budget::new(if tier == Tier::Quick { 50.0 } else { 900.0 });
 	let (m, p) = if tier == Tier::Quick { (2, 3) } else { (3, 3) };
 	let mid_alpha = vec![Cop::W(Kind::Set, b"a"), Cop::W(Kind::Delete, b"b"), Cop::F, Cop::C, Cop::R];
 	let post_alpha = vec![Cop::W(Kind::Set, b"a"), Cop::W(Kind::Set, b"b"), Cop::F, Cop::C, Cop::O, Cop::B];
 	let mut cases = vec![];
-	for pre in 0..3 {
+	for pre in 0..5 {
 		for mid in seqs(&mid_alpha, m) {
 			for post in seqs(&post_alpha, p) {
 				cases.push(Case {
@@ -463,7 +471,7 @@ pub fn check(tier: Tier) -> i32 {
 			all_complete = false;
 			completed.push(format!("{}: {d} of {} cases (time cap)", opt.name, cases.len()));
 		} else {
-			completed.push(format!("{}: all {} cases (3 pre-histories x mid<= {m} x post<= {p})", opt.name, cases.len()));
+			completed.push(format!("{}: all {} cases (5 pre-histories x mid<= {m} x post<= {p})", opt.name, cases.len()));
 		}
 		let mut found = found.into_inner().unwrap();
 		found.sort_by_key(|f| f.0);
@@ -539,7 +547,7 @@ pub fn check(tier: Tier) -> i32 {
 	report.set("transitions", json!(transitions.max(1)));
 	report.set("traces_validated_against_impl", json!(evaluations));
 	report.set("distinct_nontrivial", json!(nontrivial));
-	report.set("rule", json!("cases = {memtable-only, one L0 table, L1+L0+memtable} x all mid-histories of <= m ops over {set a, delete b, flush, compaction} x all post-histories of <= p ops over {set a, set b, flush, compaction, reopen}; every case: checkpoint, mid, restore, post, then the checkpoint directory is opened on its own; all reads compared with the map model after every step; non-trivial = cases with non-empty mid and post"));
+	report.set("rule", json!("cases = {memtable-only, one L0 table, L1+L0+memtable, empty store, one L0 table with a short value only} x all mid-histories of <= m ops over {set a, delete b, flush, compaction} x all post-histories of <= p ops over {set a, set b, flush, compaction, reopen}; every case: checkpoint, mid, restore, post, then the checkpoint directory is opened on its own; all reads compared with the map model after every step; non-trivial = cases with non-empty mid and post"));
 	report.set("samples", json!([cases[cases.len() / 2].short(), cases[cases.len() - 1].short()]));
 	report.set("bounds_completed", json!(completed));
 	report.set("exhaustive", json!(all_complete));
